@@ -199,8 +199,22 @@ def main():
         rep.count("family:" + c["tag"].split(":")[0])
     ok = refcheck.tally(rep, cases, vds)
     picked, cv, rejected = refcheck.canaries(rep, rng, ok, wd, mutate, need=30)
-    if rejected * 3 < len(picked) * 2:
-        raise common.MachineryError("canaries: only %d of %d corrupted outputs were rejected" % (rejected, len(picked)))
+    o = {"add_standard_prefix": False}
+    refcheck.fixed_canaries(rep, wd, [
+        (["5 INPUT A,B$", "10 PRINT A;B$"], o, two, "; B$", ", B$"),
+        (["5 INPUT A,B$", "10 PRINT A;B$;"], o, two, "B$;", "B$"),
+        (["5 INPUT A,B$", "10 PRINT B$"], o, two, "PRINT B$", "PRINT B$; B$"),
+        (["5 INPUT A,B$", "10 DATA 1,2", "20 READ X,Y"], o, two, "1.0, 2.0", "2.0, 1.0"),
+        (["5 INPUT A,B$", "10 DATA 1,2", "20 READ X:RESTORE:READ Y"], o, two, "RESTORE", "REM"),
+        (["5 INPUT A,B$", "10 DIM C(2)", "20 C(2)=5"], o, two, "arr_C(3)", "arr_C(2)"),
+        (["5 INPUT A,B$", "10 DIM C(1,2)", "20 C(1,2)=5:C(0,1)=6"], o, two, "arr_C(2, 3)", "arr_C(3, 2)"),
+        (["5 INPUT A,B$", "10 E(10)=5"], o, two, "arr_E(11)", "arr_E(10)"),
+        (["5 INPUT A,B$", "10 INPUT \"P\";X"], o, insc, "P? ", "P"),
+        (["5 INPUT A,B$", "10 LINE INPUT \"P\";Y$"], o, insc, "\"P\"", "\"P? \""),
+        (["5 INPUT A,B$", "10 Z$=LEFT$(\"ABC\",1)"], o, two, "LEFT$", "RIGHT$"),
+        (["5 INPUT A,B$", "10 Z$=MID$(\"ABC\",2,1)"], o, two, "2.0, 1.0", "1.0, 2.0"),
+        (["10 Z=Q+1", "90 END"], {"initialize_vars": True}, [{"inp": [], "dev": []}], "Q := 0.0", "REM"),
+    ])
     return rep.finish({"exhaustive": False, "bounds": {"print_list_len": 6 if thorough else 4, "data_items": 4 if thorough else 3,
                                                        "string_len": 3, "indices": "0..4"}})
 
